@@ -168,17 +168,18 @@ theorem srvDecrypt_unverified (s : Srv) (t : Bytes) (pos : RPos) (aad nonce piv 
     (srvDecrypt s t pos aad nonce piv false o).as = s.as := rfl
 
 /-- after a VERIFIED `decrypt` step the association of its token holds the new recipient context, nonce, AAD and Partial IV
-(and `is_observe` when the request carried Observe); the others are untouched -/
+(and `is_observe` when the request carried Observe), and belongs to the received request (`is_client` = 0, fix 48ee5dc); the
+others are untouched -/
 theorem findSAssoc_decrypt (s : Srv) (t : Bytes) (pos : RPos) (aad nonce piv : Bytes) (o : Bool) (t' : Bytes) :
     (t' = t → ∃ a, findSAssoc (srvDecrypt s t pos aad nonce piv true o).as t' = some a ∧ a.rcp = pos ∧ a.piv = piv ∧
-        a.nonce = nonce ∧ a.aad = aad ∧ (o = true → a.isObserve = true)) ∧
+        a.nonce = nonce ∧ a.aad = aad ∧ (o = true → a.isObserve = true) ∧ a.isClient = false) ∧
     (¬ t' = t → findSAssoc (srvDecrypt s t pos aad nonce piv true o).as t' = findSAssoc s.as t') := by
   have key : ∀ as1 : List SAssoc,
-      (t' = t → ∃ a, findSAssoc as1 t' = some a ∧ a.rcp = pos ∧ a.piv = piv ∧ a.nonce = nonce ∧ a.aad = aad) →
+      (t' = t → ∃ a, findSAssoc as1 t' = some a ∧ a.rcp = pos ∧ a.piv = piv ∧ a.nonce = nonce ∧ a.aad = aad ∧ a.isClient = false) →
       (¬ t' = t → findSAssoc as1 t' = findSAssoc s.as t') →
       (t' = t → ∃ a, findSAssoc (if o = true then as1.map fun a => if a.token = t then { a with isObserve := true } else a
                                   else as1) t' = some a ∧ a.rcp = pos ∧ a.piv = piv ∧ a.nonce = nonce ∧ a.aad = aad ∧
-                                  (o = true → a.isObserve = true)) ∧
+                                  (o = true → a.isObserve = true) ∧ a.isClient = false) ∧
       (¬ t' = t → findSAssoc (if o = true then as1.map fun a => if a.token = t then { a with isObserve := true } else a
                                else as1) t' = findSAssoc s.as t') := by
     intro as1 h1 h2
@@ -187,30 +188,31 @@ theorem findSAssoc_decrypt (s : Srv) (t : Bytes) (pos : RPos) (aad nonce piv : B
       have hm := findSAssoc_map as1 t t' (fun a => { a with isObserve := true }) (fun _ => rfl)
       constructor
       · intro ht
-        obtain ⟨a, ha, r1, r2, r3, r4⟩ := h1 ht
+        obtain ⟨a, ha, r1, r2, r3, r4, r5⟩ := h1 ht
         rw [hm, ha]
         simp only [ht, if_true, Option.map_some]
-        exact ⟨_, rfl, r1, r2, r3, r4, fun _ => rfl⟩
+        exact ⟨_, rfl, r1, r2, r3, r4, fun _ => rfl, r5⟩
       · intro ht
         rw [hm]
         simp only [ht, if_false]
         exact h2 ht
     · simp only [hvo, if_false, Bool.false_eq_true]
       refine ⟨fun ht => ?_, h2⟩
-      obtain ⟨a, ha, r1, r2, r3, r4⟩ := h1 ht
-      exact ⟨a, ha, r1, r2, r3, r4, fun h => h.elim⟩
+      obtain ⟨a, ha, r1, r2, r3, r4, r5⟩ := h1 ht
+      exact ⟨a, ha, r1, r2, r3, r4, fun h => h.elim, r5⟩
   unfold srvDecrypt
   simp only [Bool.not_true, Bool.false_eq_true, if_false]
   cases hf : findSAssoc s.as t with
   | none =>
     apply key
     · intro ht; subst ht
-      exact ⟨⟨t', pos, aad, nonce, piv, false⟩, by simp [findSAssoc], rfl, rfl, rfl, rfl⟩
+      exact ⟨⟨t', pos, aad, nonce, piv, false, false⟩, by simp [findSAssoc], rfl, rfl, rfl, rfl, rfl⟩
     · intro ht
       have : ¬ t = t' := fun x => ht x.symm
       simp [findSAssoc, this]
   | some a0 =>
-    have hm := findSAssoc_map s.as t t' (fun a => { a with nonce := nonce, piv := piv, aad := aad, rcp := pos }) (fun _ => rfl)
+    have hm := findSAssoc_map s.as t t'
+      (fun a => { a with nonce := nonce, piv := piv, aad := aad, rcp := pos, isClient := false }) (fun _ => rfl)
     apply key
     · intro ht
       rw [hm]
@@ -227,59 +229,166 @@ theorem findSAssoc_decrypt_ne (s : Srv) (t : Bytes) (pos : RPos) (aad nonce piv 
   | false => rw [srvDecrypt_unverified]
   | true => exact (findSAssoc_decrypt s t pos aad nonce piv o t').2 h
 
-/-- every association holds the recipient context of the latest VERIFIED `decrypt` step with its token -/
-def SrvInv (s : Srv) (acc : Bytes → Option RPos) : Prop :=
-  ∀ t a, findSAssoc s.as t = some a → acc t = some a.rcp
+/-- protecting a response only removes: the association of its own token (unless `is_client` / `is_observe`) -/
+theorem findSAssoc_protect (s : Srv) (t t' : Bytes) :
+    (¬ t' = t → findSAssoc (srvProtect s t).as t' = findSAssoc s.as t') ∧
+    (∀ a, findSAssoc (srvProtect s t).as t' = some a → findSAssoc s.as t' = some a) := by
+  unfold srvProtect
+  cases hf : findSAssoc s.as t with
+  | none => exact ⟨fun _ => rfl, fun _ h => h⟩
+  | some a0 =>
+    simp only
+    by_cases hcl : a0.isClient = true
+    · simp only [hcl, if_true]; exact ⟨fun _ => trivial, fun _ h => h⟩
+    · by_cases hc : a0.isObserve = true
+      · simp only [hcl, hc, if_true, if_false, Bool.false_eq_true]; exact ⟨fun _ => trivial, fun _ h => h⟩
+      · simp only [hcl, hc, if_false, Bool.false_eq_true]
+        rw [findSAssoc_filter]
+        by_cases ht : t' = t
+        · simp [ht]
+        · simp [ht]
 
-theorem SrvInv_step (s : Srv) (acc : Bytes → Option RPos) (x : SrvStep) (h : SrvInv s acc) :
-    SrvInv (srvStep s x) (srvTrack acc x) := by
+/-- a response that arrives only removes: the association of its own token (when it verifies, unless `is_observe`) -/
+theorem findSAssoc_respIn (s : Srv) (t : Bytes) (v : Bool) (t' : Bytes) :
+    (¬ t' = t → findSAssoc (srvRespIn s t v).as t' = findSAssoc s.as t') ∧
+    (∀ a, findSAssoc (srvRespIn s t v).as t' = some a → findSAssoc s.as t' = some a) := by
+  unfold srvRespIn
+  cases hf : findSAssoc s.as t with
+  | none => exact ⟨fun _ => rfl, fun _ h => h⟩
+  | some a0 =>
+    simp only
+    by_cases hc : (v && !a0.isObserve) = true
+    · simp only [hc, if_true]
+      rw [findSAssoc_filter]
+      by_cases ht : t' = t
+      · simp [ht]
+      · simp [ht]
+    · simp only [hc, if_false, Bool.false_eq_true]; exact ⟨fun _ => trivial, fun _ h => h⟩
+
+/-- a request SENT from this end makes the association of its token its own (`is_client` = 1, fix 48ee5dc) and leaves the
+others alone -/
+theorem findSAssoc_request (s : Srv) (t : Bytes) (pos : RPos) (aad nonce piv : Bytes) (o : Bool) (v : Nat) (t' : Bytes) :
+    (t' = t → ∃ a, findSAssoc (srvRequest s t pos aad nonce piv o v).as t' = some a ∧ a.isClient = true ∧ a.nonce = nonce ∧
+        a.aad = aad ∧ a.piv = piv) ∧
+    (¬ t' = t → findSAssoc (srvRequest s t pos aad nonce piv o v).as t' = findSAssoc s.as t') := by
+  unfold srvRequest
+  cases hf : findSAssoc s.as t with
+  | none =>
+    constructor
+    · intro ht; subst ht
+      exact ⟨⟨t', pos, aad, nonce, piv, o, true⟩, by simp [findSAssoc], rfl, rfl, rfl, rfl⟩
+    · intro ht
+      have : ¬ t = t' := fun x => ht x.symm
+      simp [findSAssoc, this]
+  | some a0 =>
+    have hm := findSAssoc_map s.as t t'
+      (fun a => { a with isClient := true, isObserve := o && v != 1, nonce := nonce, aad := aad, piv := piv, rcp := pos })
+      (fun _ => rfl)
+    constructor
+    · intro ht
+      simp only
+      rw [hm]
+      subst ht
+      simp [hf]
+    · intro ht
+      simp only
+      rw [hm]
+      simp [ht]
+
+/-- every association that may protect a response (`is_client` = 0) holds recipient context, AAD, nonce and Partial IV of the
+latest VERIFIED `decrypt` step with its token, and no request sent from this end has used the token since -/
+def SrvInvReq (s : Srv) (acc : Bytes → Option (RPos × Bytes × Bytes × Bytes)) : Prop :=
+  ∀ t a, findSAssoc s.as t = some a → a.isClient = false → acc t = some (a.rcp, a.aad, a.nonce, a.piv)
+
+theorem SrvInvReq_step (s : Srv) (acc : Bytes → Option (RPos × Bytes × Bytes × Bytes)) (x : SrvStep) (h : SrvInvReq s acc) :
+    SrvInvReq (srvStep s x) (srvTrackReq acc x) := by
   cases x with
   | decrypt t pos aad nonce piv v o =>
-    unfold srvStep srvTrack
-    intro t' a ha
+    unfold srvStep srvTrackReq
+    intro t' a ha hcl
     cases v with
     | false =>
       rw [srvDecrypt_unverified] at ha
       simp only [Bool.false_eq_true, if_false]
-      exact h t' a ha
+      exact h t' a ha hcl
     | true =>
       simp only [if_true]
       have hp := findSAssoc_decrypt s t pos aad nonce piv o t'
       by_cases ht : t' = t
-      · obtain ⟨a', h1, h2, _⟩ := hp.1 ht
+      · obtain ⟨a', h1, h2, h3, h4, h5, _⟩ := hp.1 ht
         rw [h1] at ha
         injection ha with ha
         subst ha
-        simp [ht, h2]
+        simp [ht, h2, h3, h4, h5]
       · rw [hp.2 ht] at ha
         simp only [ht, if_false]
-        exact h t' a ha
+        exact h t' a ha hcl
   | protect t =>
-    unfold srvStep srvTrack srvProtect
-    intro t' a ha
-    cases hf : findSAssoc s.as t with
-    | none => simp only [hf] at ha; exact h t' a ha
-    | some a0 =>
-      simp only [hf] at ha
-      by_cases hc : a0.isObserve = true
-      · simp only [hc, if_true] at ha
-        exact h t' a ha
-      · simp only [hc, if_false, Bool.false_eq_true] at ha
-        rw [findSAssoc_filter] at ha
-        by_cases ht : t' = t
-        · simp [ht] at ha
-        · simp only [ht, if_false] at ha
-          exact h t' a ha
+    unfold srvStep srvTrackReq
+    intro t' a ha hcl
+    exact h t' a ((findSAssoc_protect s t t').2 a ha) hcl
+  | request t pos aad nonce piv o v =>
+    unfold srvStep srvTrackReq
+    intro t' a ha hcl
+    have hp := findSAssoc_request s t pos aad nonce piv o v t'
+    by_cases ht : t' = t
+    · obtain ⟨a', h1, h2, _⟩ := hp.1 ht
+      rw [h1] at ha
+      injection ha with ha
+      subst ha
+      rw [h2] at hcl
+      exact absurd hcl (by simp)
+    · rw [hp.2 ht] at ha
+      simp only [ht, if_false]
+      exact h t' a ha hcl
+  | respIn t v =>
+    unfold srvStep srvTrackReq
+    intro t' a ha hcl
+    exact h t' a ((findSAssoc_respIn s t v t').2 a ha) hcl
 
-theorem SrvInv_run (steps : List SrvStep) :
-    ∀ (s : Srv) (acc : Bytes → Option RPos), SrvInv s acc → SrvInv (steps.foldl srvStep s) (steps.foldl srvTrack acc) := by
+theorem SrvInvReq_run (steps : List SrvStep) :
+    ∀ (s : Srv) (acc : Bytes → Option (RPos × Bytes × Bytes × Bytes)), SrvInvReq s acc →
+      SrvInvReq (steps.foldl srvStep s) (steps.foldl srvTrackReq acc) := by
   induction steps with
   | nil => intro s acc h; exact h
-  | cons x rest ih => intro s acc h; exact ih _ _ (SrvInv_step s acc x h)
+  | cons x rest ih => intro s acc h; exact ih _ _ (SrvInvReq_step s acc x h)
+
+/-- `srvLatest` is the first component of `srvLatestReq` -/
+theorem srvTrack_fst (acc : Bytes → Option RPos) (accR : Bytes → Option (RPos × Bytes × Bytes × Bytes))
+    (h : ∀ t, acc t = (accR t).map (·.1)) (x : SrvStep) : ∀ t, srvTrack acc x t = (srvTrackReq accR x t).map (·.1) := by
+  intro t'
+  cases x with
+  | decrypt t pos aad nonce piv v o =>
+    unfold srvTrack srvTrackReq
+    cases v with
+    | false => simp only [Bool.false_eq_true, if_false]; exact h t'
+    | true =>
+      simp only [if_true]
+      by_cases ht : t' = t
+      · simp [ht]
+      · simp only [ht, if_false]; exact h t'
+  | protect t => exact h t'
+  | request t pos aad nonce piv o v =>
+    unfold srvTrack srvTrackReq
+    by_cases ht : t' = t
+    · simp [ht]
+    · simp only [ht, if_false]; exact h t'
+  | respIn t v => exact h t'
+
+theorem srvLatest_fst (steps : List SrvStep) (t : Bytes) : srvLatest steps t = (srvLatestReq steps t).map (·.1) := by
+  have key : ∀ (steps : List SrvStep) (acc : Bytes → Option RPos) (accR : Bytes → Option (RPos × Bytes × Bytes × Bytes)),
+      (∀ t, acc t = (accR t).map (·.1)) → ∀ t, steps.foldl srvTrack acc t = (steps.foldl srvTrackReq accR t).map (·.1) := by
+    intro steps
+    induction steps with
+    | nil => intro acc accR h; exact h
+    | cons x rest ih => intro acc accR h; exact ih _ _ (srvTrack_fst acc accR h x)
+  exact key steps (fun _ => none) (fun _ => none) (fun _ => rfl) t
 
 def SrvStepToken : SrvStep → Bytes
   | .decrypt t _ _ _ _ _ _ => t
   | .protect t => t
+  | .request t _ _ _ _ _ _ => t
+  | .respIn t _ => t
 
 /-- a step that concerns another token leaves the association of `t` alone -/
 theorem findSAssoc_step_ne (s : Srv) (x : SrvStep) (t : Bytes) (h : SrvStepToken x ≠ t) :
@@ -291,16 +400,13 @@ theorem findSAssoc_step_ne (s : Srv) (x : SrvStep) (t : Bytes) (h : SrvStepToken
     exact findSAssoc_decrypt_ne s t0 pos aad nonce piv v o t h'
   | protect t0 =>
     simp only [SrvStepToken] at h'
-    simp only [srvStep, srvProtect]
-    cases hf : findSAssoc s.as t0 with
-    | none => rfl
-    | some a0 =>
-      simp only
-      by_cases hc : a0.isObserve = true
-      · simp only [hc, if_true]
-      · simp only [hc, if_false, Bool.false_eq_true]
-        rw [findSAssoc_filter]
-        simp [h']
+    exact (findSAssoc_protect s t0 t).1 h'
+  | request t0 pos aad nonce piv o v =>
+    simp only [SrvStepToken] at h'
+    exact (findSAssoc_request s t0 pos aad nonce piv o v t).2 h'
+  | respIn t0 v =>
+    simp only [SrvStepToken] at h'
+    exact (findSAssoc_respIn s t0 v t).1 h'
 
 theorem findSAssoc_run_ne (steps : List SrvStep) (t : Bytes) (h : ∀ x ∈ steps, SrvStepToken x ≠ t) :
     ∀ s, findSAssoc (srvRun s steps).as t = findSAssoc s.as t := by
@@ -315,11 +421,14 @@ theorem findSAssoc_run_ne (steps : List SrvStep) (t : Bytes) (h : ∀ x ∈ step
     rw [this]
     exact findSAssoc_step_ne s x t (h x List.mem_cons_self)
 
-/-- a step that leaves the association of token `t` alone: it concerns another token, or it is a request (with whatever
-token, also `t`) that does not verify (fix b3c6528) -/
+/-- a step that leaves the association of token `t` alone: it concerns another token (a received request, a response
+protected or received, a request SENT from this end), or it is a received request (with whatever token, also `t`) that does
+not verify (fix b3c6528) -/
 def SrvStepLeaves (t : Bytes) : SrvStep → Prop
   | .decrypt t' _ _ _ _ v _ => t' ≠ t ∨ v = false
   | .protect t' => t' ≠ t
+  | .request t' _ _ _ _ _ _ => t' ≠ t
+  | .respIn t' _ => t' ≠ t
 
 theorem findSAssoc_step_leaves (s : Srv) (x : SrvStep) (t : Bytes) (h : SrvStepLeaves t x) :
     findSAssoc (srvStep s x).as t = findSAssoc s.as t := by
@@ -331,6 +440,8 @@ theorem findSAssoc_step_leaves (s : Srv) (x : SrvStep) (t : Bytes) (h : SrvStepL
       simp only [srvStep]
       rw [srvDecrypt_unverified]
   | protect t0 => exact findSAssoc_step_ne s _ t h
+  | request t0 pos aad nonce piv o v => exact findSAssoc_step_ne s _ t h
+  | respIn t0 v => exact findSAssoc_step_ne s _ t h
 
 theorem findSAssoc_run_leaves (steps : List SrvStep) (t : Bytes) (h : ∀ x ∈ steps, SrvStepLeaves t x) :
     ∀ s, findSAssoc (srvRun s steps).as t = findSAssoc s.as t := by
@@ -344,5 +455,48 @@ theorem findSAssoc_run_leaves (steps : List SrvStep) (t : Bytes) (h : ∀ x ∈ 
     unfold srvRun at this
     rw [this]
     exact findSAssoc_step_leaves s x t (h x List.mem_cons_self)
+
+/-- a step after which an association of token `t` that belongs to a request sent from this end still does (or is gone):
+everything but a VERIFIED received request with `t` -/
+def SrvStepKeepsClient (t : Bytes) : SrvStep → Prop
+  | .decrypt t' _ _ _ _ v _ => t' ≠ t ∨ v = false
+  | _ => True
+
+theorem client_step_keeps (s : Srv) (x : SrvStep) (t : Bytes) (hx : SrvStepKeepsClient t x)
+    (h : ∀ a, findSAssoc s.as t = some a → a.isClient = true) :
+    ∀ a, findSAssoc (srvStep s x).as t = some a → a.isClient = true := by
+  intro a ha
+  cases x with
+  | decrypt t0 pos aad nonce piv v o =>
+    have hl : SrvStepLeaves t (.decrypt t0 pos aad nonce piv v o) := hx
+    rw [findSAssoc_step_leaves s _ t hl] at ha
+    exact h a ha
+  | protect t0 => exact h a ((findSAssoc_protect s t0 t).2 a ha)
+  | respIn t0 v => exact h a ((findSAssoc_respIn s t0 v t).2 a ha)
+  | request t0 pos aad nonce piv o v =>
+    have hp := findSAssoc_request s t0 pos aad nonce piv o v t
+    by_cases ht : t = t0
+    · obtain ⟨a', h1, h2, _⟩ := hp.1 ht
+      simp only [srvStep] at ha
+      rw [h1] at ha
+      injection ha with ha
+      rw [← ha]; exact h2
+    · simp only [srvStep] at ha
+      rw [hp.2 ht] at ha
+      exact h a ha
+
+theorem client_run_keeps (steps : List SrvStep) (t : Bytes) (hx : ∀ x ∈ steps, SrvStepKeepsClient t x) :
+    ∀ s, (∀ a, findSAssoc s.as t = some a → a.isClient = true) →
+      ∀ a, findSAssoc (srvRun s steps).as t = some a → a.isClient = true := by
+  induction steps with
+  | nil => intro s h; exact h
+  | cons x rest ih =>
+    intro s h
+    unfold srvRun
+    rw [List.foldl_cons]
+    have := ih (fun y hy => hx y (List.mem_cons_of_mem _ hy)) (srvStep s x)
+      (client_step_keeps s x t (hx x List.mem_cons_self) h)
+    unfold srvRun at this
+    exact this
 
 end Coap
